@@ -495,5 +495,49 @@ def r20_6(ctx):
         raise AnalysisError(f"only {n_rows} select/set row loops found in write_menu_item")
 
 
+def r20_7(ctx):
+    """R20.7 (a) only what is known to hold is struck from a displayed condition: _remove_deps_from_expr replaces by y the option's whole
+    `depends on` expression (which holds wherever the row applies) or, at most, the operands of a conjunction of it - never the
+    operands of a disjunction: from `A || B` neither A nor B follows, and a row `default 32 if A` would be shown unconditional and
+    hide the rows below it although it does not apply when only B holds; (b) a link points where the anchor is written: the
+    `Contains:` list takes the target of every child from get_link_anchor(child), the function that writes the child's anchor."""
+    from .common import expand_locals
+    repo = ctx.repo
+    f = repo.func(f"{DOC}:_remove_deps_from_expr")
+    ctx.analysed(f.qual)
+    prm = [a.arg for a in f.node.args.args]
+    if len(prm) < 3:
+        raise AnchorError("_remove_deps_from_expr no longer takes (expr, deps, y)")
+    deps = prm[1]
+    fl = Flow(f.node, resolver=Resolver(f.node)).run()
+    calls = [n for n in ast.walk(f.node) if isinstance(n, ast.Call) and isinstance(n.func, ast.Name) and n.func.id == f.node.name and len(n.args) >= 2]
+    if not calls:
+        raise AnchorError("_remove_deps_from_expr: no recursion")
+    for i, c in enumerate(calls):
+        construct = f"_remove_deps_from_expr/recursion #{i + 1} strikes only what the dependency implies"
+        d = expand_locals(f.node, c.args[1])
+        if d == deps:
+            ctx.ok(construct, f.loc(c))
+            continue
+        gs = fl.guards_at(c) or set()
+        conj = any(k.replace("kconfiglib.", "") == f"{deps}[0] == AND" and p for k, p in gs)
+        if d.startswith(f"{deps}[") and conj:
+            ctx.ok(construct, f.loc(c), operand_of="AND")
+        else:
+            ctx.bad(construct, f"the part `{d}` of the dependency is struck under {sorted(gs)}: unless the dependency is a conjunction that part need not hold where "
+                    "the row applies (`depends on A || B`), and a condition is shown as always true that is not", f.loc(c))
+    w = repo.func(f"{DOC}:write_menu_item")
+    ctx.analysed(w.qual)
+    cont = [n for n in ast.walk(w.node) if isinstance(n, ast.Call) and ast.unparse(n.func) == "child_list.append" and n.args]
+    construct = "write_menu_item/Contains list links the anchor get_link_anchor(child) writes"
+    if not cont:
+        ctx.bad(construct, "Contains list not found", w.loc())
+    else:
+        a = cont[0].args[0]
+        tgt = expand_locals(w.node, a.elts[-1]) if isinstance(a, ast.Tuple) and a.elts else expand_locals(w.node, a)
+        (ctx.ok(construct, w.loc(cont[0])) if tgt == "get_link_anchor(child)" else
+         ctx.bad(construct, f"the link target is `{tgt[:60]}`, not get_link_anchor(child): for some children the `:ref:` names an anchor that is never written", w.loc(cont[0])))
+
+
 def rules():
-    return [("R20.6", r20_6, 4), ("R20.1", r20_1, 8), ("R20.2", r20_2, 3), ("R20.4", r20_4, 5), ("R20.3", r20_3, 7), ("R20.5", r20_5, 3)]
+    return [("R20.7", r20_7, 3), ("R20.6", r20_6, 4), ("R20.1", r20_1, 8), ("R20.2", r20_2, 3), ("R20.4", r20_4, 5), ("R20.3", r20_3, 7), ("R20.5", r20_5, 3)]
